@@ -14,12 +14,13 @@ def known : Known :=
 /-- fingerprints (extract/main.go `funcHash`) of the functions Model/Build.lean was transcribed from -/
 def sourceHashes : List (String × String) :=
   [("Interpreter.buildOk", "5fd763805313e28a"),
-   ("buildLineOk", "e9b789af4cf04266"),
+   ("buildLineOk", "daffa9d1477b872a"),
    ("buildOptionOk", "fb608fcc7aa73dd7"),
-   ("buildTagOk", "4f0d809c373ea57d"),
+   ("buildTagOk", "889ade5373773f24"),
    ("goMinorVersion", "36f86cc7c4e77419"),
    ("contains", "fb8522e3b98e05f8"),
-   ("skipFile", "2f8fb4545507447b"),
-   ("matchOsArch", "3592d482c5e5e0b6")]
+   ("skipFile", "c3b54834155cff2b"),
+   ("matchTag", "d088c9c9ed784309"),
+   ("isValidTag", "71a6534f18a8fe85")]
 
 end YaegiVerif.Expected.C17
